@@ -33,8 +33,8 @@ placement of timed-out calls, deliveries in the middle of a block, internal id c
   configuration error) - it does not time out.  This is the statement a phantom "partial" report for a late heartbeat breaks.
   `C05_join_eph_no_holdup_set`: with pairwise distinct destination names (`NamesNodup`) what it returns is a set.
   `C05_join_eph_calls`: the first three statements for interleavings of deliveries and whole calls (`crun`).
-NOT proved: that with the SAME schedule the run with the ephemeral deliveries is never AHEAD of the run without them (only: the two
-returned sequences are prefix-related); ephemeral streams with repeated ids or restarts (CLOSE); ephemeral subscriptions that share
+That with the SAME schedule the run with the ephemeral deliveries is never AHEAD of the run without them is proved in
+`C05JoinEphAhead.lean` (`C05_join_eph_never_ahead`).  NOT proved: ephemeral streams with repeated ids or restarts (CLOSE); ephemeral subscriptions that share
 no topic with the publisher (`EphOK.keysNe`); balanced receivers; `recv(state)` jumps.  Liveness beyond one call is not claimed.
 Helpers: `JoinEphGen.lean` (invariant scheme, effect of a take), `JoinEphSync.lean` (`SInv`), `JoinEphInv.lean` (`EphInv`),
 `JoinEphRun.lean`, `JoinEphCall.lean` (calls, fuel, `CInv`).
